@@ -82,6 +82,9 @@ def make_plan(rng, nops, ctx_role):
             ops.append("sxxf:%d,%d,%d,%d" % (R(rng), R(rng), R(rng), R(rng)))
     if ctx_role == "eval":
         ops.insert(rng.randrange(len(ops) + 1), "ctxstatus:%d" % R(rng))
+    elif ctx_role == "eval2":
+        # the same context observes two evaluations in a row (counter reset while another thread polls)
+        ops = ["ctxstatus:%d" % R(rng), "ctxstatus:%d" % R(rng)] + ops[:1]
     elif ctx_role == "cancel":
         for _ in range(rng.randint(1, 3)):
             ops.insert(rng.randrange(len(ops) + 1), "poll")
@@ -170,8 +173,8 @@ class C06(Check):
                 with_ctx = rng.random() < 0.35
                 roles = [None] * nthreads
                 if with_ctx:
-                    roles[0] = "eval"
-                    roles[1] = rng.choice(["cancel", "poll"])
+                    roles[0] = rng.choice(["eval", "eval", "eval2"])
+                    roles[1] = rng.choice(["cancel", "poll"]) if roles[0] == "eval" else "poll"
                 plans = [";".join(make_plan(rng, rng.randint(1, 5), roles[t])) for t in range(nthreads)]
                 tsan = rng.random() < 0.5
                 args = {"setup": ";".join(setup), "plans": "|".join(plans), "seed": rng.randrange(1, 1 << 30),
